@@ -1,2 +1,3 @@
 pub mod dom;
 pub mod field;
+pub mod walk;
